@@ -49,6 +49,17 @@ CHECKS = {
             'PicklePersister (real files) and a dictionary model while the processes keep running on the simulated loop; '
             'separate fault configuration with injected open() errors and torn writes under a relaxed, narrow oracle', '5 C14',
             'deterministic simulation: seeded operation histories against a reference model, disk-fault injection, restart'),
+    'C16': ('exploration', 'seeded search over programs x control-message sequences (RPC via both plumpy controllers, broadcasts) on '
+            'a simulated transport with delay, duplication and reordering; quiescent deliveries are compared with a twin run '
+            'making the direct calls, timed deliveries with the recorded return value of the handler; announcements are '
+            'compared with completed transitions; one run per (transition, tolerated broadcast error)', '5 C16',
+            'deterministic simulation: simulated transport with message faults, twin-run differential oracle, fault enumeration '
+            'over broadcast failures'),
+    'C17': ('exploration', 'seeded histories of launcher tasks (create/launch/continue/execute/bogus, persist/nowait/tag flags, '
+            'snapshots, worker restarts) against no / in-memory / pickle persister and default / custom loader, through '
+            'LoopCommunicator on the simulated transport or by direct call; replies, persister content and executed steps '
+            'are compared with a reference model', '5 C17',
+            'deterministic simulation: seeded task histories against a reference model, restart injection'),
     'C18': ('exploration', 'seeded search over 2-4 concurrently stepping processes with async steps of seeded virtual durations, '
             'launched children, re-entrant child.execute() (nested loop runs), callbacks and hooks; every piece of generated '
             'user code probes Process.current(), a sampler checks it between all handles of outer and nested loops', '5 C18',
@@ -66,8 +77,6 @@ NOT_APPLICABLE = [
 ]
 
 PENDING = {
-    'C16': 'check under construction in this session',
-    'C17': 'check under construction in this session',
     'C20': 'check under construction in this session',
 }
 
